@@ -51,6 +51,23 @@ def run(ctx):
             ev += 1
             if not dom.relclose(back, float(p), 1e-9, 1e-9):
                 bad("solution GOR does not invert the bubble-point correlation below the bubble point", dict(**inp, p=float(p)), dict(gor=float(g_), pb_of_gor=back))
+        # a ladder of pressures approaching the bubble point from below, one per decade of relative distance (1e-2 ... 1e-12): the
+        # saturated branch is the inverse of the bubble-point correlation all the way up, and FVF / viscosity keep moving
+        lad_p = [pb * (1 - 10.0 ** (-e_)) for e_ in range(2, 13)]
+        lad_g = [f("solution_gor_Standing", q_) for q_ in lad_p]
+        lad_b = [f("b_o_Standing", q_) for q_ in lad_p]
+        lad_m = [f("viscosity_beggs_robinson", q_) for q_ in lad_p]
+        ev += 3 * len(lad_p)
+        for e_, q_, g_ in zip(range(2, 13), lad_p, lad_g):
+            back = float(oil.pressure_bubblepoint_Standing(T, api, gg, float(g_)))
+            if not dom.relclose(back, q_, 1e-12):
+                bad("solution GOR does not invert the bubble-point correlation just below the bubble point", dict(**inp, p=q_, relative_distance_below_pb=10.0 ** (-e_)), dict(gor=float(g_), pb_of_gor=back, rel_error=abs(back / q_ - 1)))
+                break
+        for i_ in range(len(lad_p) - 5):      # distances 1e-2 ... 1e-8: consecutive decades differ by far more than rounding
+            if not (lad_b[i_ + 1] > lad_b[i_] and lad_m[i_ + 1] < lad_m[i_] and lad_g[i_ + 1] > lad_g[i_]):
+                bad("GOR / oil FVF do not strictly rise, or viscosity does not strictly fall, between pressures one decade of relative distance apart below the bubble point",
+                    dict(**inp, p_low=lad_p[i_], p_high=lad_p[i_ + 1]), dict(gor=[lad_g[i_], lad_g[i_ + 1]], Bo=[lad_b[i_], lad_b[i_ + 1]], viscosity=[lad_m[i_], lad_m[i_ + 1]]))
+                break
         if np.any(np.diff(bo[ps <= pb]) < -1e-12):
             bad("oil FVF does not rise with pressure up to the bubble point", inp, float(np.diff(bo[ps <= pb]).min()))
         if np.any(np.diff(bo[above]) > 1e-12):
